@@ -192,6 +192,17 @@ func gen(g *core.G) {
 			g.Emit("infer " + s(t) + " " + w.String())
 		}
 	}
+	// the positional universe (Tuple / Array types with declared types shorter than, equal to and longer than their sizes):
+	// the third and fourth law against the arrays that tell them apart, commonType on every pair
+	pos := lat.Positional(g.Thorough())
+	for _, t := range pos {
+		for _, v := range lat.PositionalVals() {
+			g.Emit("infer " + s(t) + " " + v.String())
+		}
+		for _, u := range pos {
+			g.Emit("common " + s(t) + " " + s(u))
+		}
+	}
 
 	// ---- (2) structured random cases ---------------------------------------------------------------------------------
 	for i := 0; i < 5000*g.Scale; i++ { // values: nested, heterogeneous, permuted, types and objects as elements
